@@ -88,13 +88,13 @@ def describe(unit, k, text):
             return {f: [({"t": "str", "v": v["v"]} if v["t"] == "pretok" else v) for v in vs] for f, vs in d.items() if f in stored}
         where = "?"
         for g in e.get("gets", []):
-            if 1 <= g[0] <= len(e["ids"]) and 1 <= e["ids"][g[0] - 1] <= len(docs) and g[2] != proj(docs[e["ids"][g[0] - 1]]):
-                where = f"get(doc {g[1]}) id {e['ids'][g[0] - 1]}: returned {json.dumps(g[2])[:700]} added {json.dumps(proj(docs[e['ids'][g[0] - 1]]))[:700]}"
+            if 1 <= g[0] <= len(e["ids"]) and 1 <= e["ids"][g[0] - 1] <= len(docs) and g[2] != proj(docs[e["ids"][g[0] - 1] - 1]):
+                where = f"get(doc {g[1]}) id {e['ids'][g[0] - 1]}: returned {json.dumps(g[2])[:700]} added {json.dumps(proj(docs[e['ids'][g[0] - 1] - 1]))[:700]}"
                 break
         else:
             for j, d in enumerate(e.get("iter", [])):
-                if j < len(e["ids"]) and 1 <= e["ids"][j] <= len(docs) and d != proj(docs[e["ids"][j]]):
-                    where = f"iter position {j} id {e['ids'][j]}: returned {json.dumps(d)[:700]} added {json.dumps(proj(docs[e['ids'][j]]))[:700]}"
+                if j < len(e["ids"]) and 1 <= e["ids"][j] <= len(docs) and d != proj(docs[e["ids"][j] - 1]):
+                    where = f"iter position {j} id {e['ids'][j]}: returned {json.dumps(d)[:700]} added {json.dumps(proj(docs[e['ids'][j] - 1]))[:700]}"
                     break
         return (f"stored document not returned as added (phase {e.get('phase')}, settings {json.dumps(cfg)}): StoreTrace rejects the segment read-back",
                 where)
